@@ -506,6 +506,8 @@ POINTER_DOC = {
     # digits that are not ASCII digits are name characters; characters a wrong 8-bit codec would move
     "1\uff10": 27, "1\u0662": 28, "price \u20ac": 29, "\u201cq\u201d": 30, "\u0085": 31, "\u00ff\u0100": 32,
     "big": [100, 101, 102, 103, 104, 105, 106, 107, 108, 109, 110, 111, 112],
+    # names a decoder of backslash escapes would change, each next to the name it would become
+    "\\u0041": 33, "A": 34, "C:\\new\\table": 35, "tail\\": 36,
 }
 
 
@@ -620,4 +622,57 @@ def r4_9(ctx: Ctx) -> RuleResult:
     return rr
 
 
-RULES = [r4_1, r4_2, r4_3, r4_4, r4_5, r4_6, r4_7, r4_8, r4_9]
+def r4_10(ctx: Ctx) -> RuleResult:
+    """The same clause for the pointer the library itself spells for a node: a match at every location of POINTER_DOC
+    (parts typed as the selectors type them - str for a member name, int for an index) is asked for its `pointer()`,
+    and that pointer must resolve, in the same document, to that very node - whatever characters the names contain
+    (a match's parts are names taken from the document: nothing in them is an escape to decode)."""
+    from sa.peval import UNKNOWN
+
+    from .model import RAISES
+    from .model import MObj
+    from .model import Model
+
+    rr = RuleResult("R4.10", "the pointer of a match at any node resolves to that node", floor=70)
+    mcls = ctx.repo.require_class("jsonpath.match.JSONPathMatch")
+    pfn = ctx.repo.find_method(mcls, "pointer")
+    if pfn is None:
+        raise AnalysisError("R4.10: JSONPathMatch.pointer not found")
+    locations: List[Tuple[Tuple[object, ...], object]] = []
+
+    def walk(v: object, parts: Tuple[object, ...]) -> None:
+        locations.append((parts, v))
+        if isinstance(v, dict):
+            for k, x in v.items():
+                walk(x, parts + (k,))
+        elif isinstance(v, list):
+            for i, x in enumerate(v):
+                walk(x, parts + (i,))
+
+    walk(POINTER_DOC, ())
+    for parts, node in locations:
+        where = "$" + "".join(f"[{p_!r}]" for p_ in parts)
+        model = Model(ctx, "R4.10")
+        model.whole_bodies = model.auto_construct = model.exact_exceptions = True
+        match = model.new("jsonpath.match.JSONPathMatch", filter_context={}, obj=node, parent=None, path=where, parts=parts, root=POINTER_DOC)
+        ptr = model.call(match, "pointer", [])
+        if ptr is RAISES:
+            rr.bad(pfn, pfn.node, f"the match at {where} has no pointer: pointer() raises {str(model.last_raised).split('.')[-1]}", construct=f"pointer() at {where} raises")
+            continue
+        if not isinstance(ptr, MObj):
+            raise AnalysisError(f"R4.10: the pointer of the match at {where} cannot be determined")
+        got = model.call(ptr, "resolve", [POINTER_DOC])
+        text = ptr.fields.get("_s")
+        if got is UNKNOWN:
+            raise AnalysisError(f"R4.10: what the pointer {text!r} of the match at {where} resolves to cannot be determined")
+        if got is RAISES:
+            rr.bad(pfn, pfn.node, f"the pointer {text!r} of the match at {where} does not resolve in its own document: {str(model.last_raised).split('.')[-1]}",
+                   construct=f"pointer of {where} does not resolve")
+        elif (got is node) if isinstance(node, (dict, list)) else (got == node and type(got) is type(node)):
+            rr.ok(pfn.loc(), f"{where} -> {text!r} -> that node")
+        else:
+            rr.bad(pfn, pfn.node, f"the pointer {text!r} of the match at {where} resolves to {got!r:.60}, another node", construct=f"pointer of {where} reaches another node")
+    return rr
+
+
+RULES = [r4_1, r4_2, r4_3, r4_4, r4_5, r4_6, r4_7, r4_8, r4_9, r4_10]
